@@ -3,7 +3,7 @@
    goroutine executes was prepared for the text it asked for. *)
 From Verif Require Import Base C14_Model C14_Check C14_Proofs2 C14_Proofs3 C14_Proofs4 C14_Proofs5.
 
-Lemma invD_init progs : invD (init progs).
+Lemma invD_init g progs : invD (init_g g progs).
 Proof.
   split.
   - intros t th H. cbn in H. rewrite nth_error_map in H. destruct (nth_error progs t); inversion H; subst.
@@ -14,7 +14,7 @@ Qed.
 
 Lemma invCD_reach progs s : reach progs s -> invC s /\ invD s.
 Proof.
-  apply (reach_ind progs (fun s => invC s /\ invD s)); [split; [apply invC_init | apply invD_init]|].
+  apply (reach_ind progs (fun s => invC s /\ invD s)); [intro g; split; [apply invC_init | apply invD_init]|].
   intros s0 t c s1 [IC ID] H. apply step_inv in H. destruct H as [th [l [Ht H]]].
   split; [eapply invC_step | eapply invD_step]; eauto.
 Qed.
